@@ -19,7 +19,8 @@ N(k, mode, kids, ch, name) == [k |-> k, mode |-> mode, kids |-> kids, ch |-> ch,
 \* ---- expression constructors ----------------------------------------------
 Quote(c) == IF c = 97 THEN "was expecting \"a\"" ELSE IF c = 98 THEN "was expecting \"b\""
             ELSE IF c = 120 THEN "was expecting \"x\"" ELSE IF c = 121 THEN "was expecting \"y\""
-            ELSE IF c = 99 THEN "was expecting \"c\"" ELSE "was expecting \"?\""
+            ELSE IF c = 99 THEN "was expecting \"c\"" ELSE IF c = 100 THEN "was expecting \"d\""
+            ELSE IF c = 10 THEN "was expecting \"\\n\"" ELSE "was expecting \"?\""
 Tm(c) == N("term", "", <<>>, c, Quote(c))
 Eps == N("empty", "", <<>>, 0, "")
 EndE == N("end", "", <<>>, 0, "")
@@ -110,6 +111,36 @@ HiddenBodies ==
               <<SeqE("many", <<X>>)>>, <<ChoiceE(<<X, Eps>>)>>}
   IN {AnyE(<<SeqE("of", p \o <<Ref(1), Bt>>), A>>) : p \in pre} \cup
      {AnyE(<<A, SeqE("of", p \o <<Ref(1), Bt>>)>>) : p \in pre}
+
+\* hidden left recursion THROUGH A SECOND nonterminal: P -> P b | R c | a (in every order), R -> pre P d
+Ct == Tm(99)
+Dt == Tm(100)
+Perms3(x, y, z) == {<<x, y, z>>, <<x, z, y>>, <<y, x, z>>, <<y, z, x>>, <<z, x, y>>, <<z, y, x>>}
+Hidden2Pairs ==
+  LET pre == {<<>>, <<Opt(X)>>, <<Eps>>, <<Opt(Ref(2))>>, <<SeqE("many", <<X>>)>>, <<Opt(X), Opt(Y)>>}
+      pAlts == Perms3(SeqE("of", <<Ref(1), Bt>>), SeqE("of", <<Ref(2), Ct>>), A)
+  IN {<<AnyE(pa), SeqE("of", p \o <<Ref(1), Dt>>)>> : pa \in pAlts, p \in pre} \cup
+     {<<AnyE(pa), AnyE(<<SeqE("of", p \o <<Ref(1), Dt>>), Dt>>)>> : pa \in pAlts, p \in pre}
+
+\* Optional over operands that consume before they fail, inside sequences (an element that returns a result
+\* AND an error), with and without an enclosing Any
+OptBodies ==
+  LET inner == {SeqE("of", <<x, y>>) : x \in {A, Bt}, y \in {A, Bt, Ref(1)}} \cup
+               {SeqE("many1", <<SeqE("of", <<A, Bt>>)>>), SeqE("sepby1", <<A, Bt>>), SeqE("try", <<A, Bt, A>>)}
+      tails == {<<A>>, <<Bt>>, <<Bt, A>>, <<Opt(A), Bt>>}
+  IN {SeqE("of", <<Opt(i)>> \o t) : i \in inner, t \in tails} \cup
+     {AnyE(<<SeqE("of", <<Opt(i)>> \o t), Bt>>) : i \in inner, t \in tails} \cup
+     {SeqE("of", <<A, Opt(i)>> \o t) : i \in inner, t \in tails}
+
+\* terminals that match a line feed, so that errors are reported on later lines (C06)
+NLt == Tm(10)
+LineBodies == {
+  SeqE("of", <<SeqE("many", <<AnyE(<<A, NLt>>)>>), Bt>>),
+  SeqE("of", <<SeqE("many", <<NLt>>), A, SeqE("many", <<NLt>>), Bt>>),
+  AnyE(<<SeqE("of", <<NLt, Ref(1)>>), SeqE("of", <<A, NLt, Bt>>), A>>),
+  SeqE("sepby1", <<AnyE(<<A, SeqE("of", <<A, Bt>>)>>), NLt>>),
+  SeqE("of", <<Opt(SeqE("of", <<NLt, NLt, A>>)), NLt, Bt>>)
+}
 
 \* two nonterminals: mutual and indirect left recursion
 F3Pairs ==
